@@ -16,6 +16,7 @@
 #include "tsgConstructSurrogate.hpp"
 #include <dlfcn.h>
 #include <sys/uio.h>
+#include <sys/personality.h>
 #include <dirent.h>
 #include <pthread.h>
 #include <map>
@@ -175,10 +176,12 @@ static std::string unhex(const std::string &s){ std::string o; auto v = [](char 
 
 // vf::run_child with a resident-set limit: a restart that parses a torn file may loop on a garbage count allocating memory for ever
 // (hundreds of MB per second); sanitizer options cannot bound that in a forked child, so the parent polls /proc/<pid>/statm.
-static long g_rss_limit_mb = 700;
+static long g_rss_limit_mb = 250; // set per child: resident size of the forking worker + 120 MB
+static long self_rss_mb(){ int fd = ::open("/proc/self/statm", O_RDONLY); if (fd < 0) return 100; char sb[128]; ssize_t r = ::read(fd, sb, sizeof(sb) - 1); ::close(fd); long size = 0, res = 0; if (r > 0){ sb[r] = 0; if (sscanf(sb, "%ld %ld", &size, &res) == 2) return res * (sysconf(_SC_PAGESIZE) / 1024) / 1024; } return 100; }
 static vf::Outcome run_child_limited(const std::function<void(int)> &body, double timeout_s, bool *runaway){
     using namespace vf;
     if (runaway) *runaway = false;
+    g_rss_limit_mb = self_rss_mb() + 120;
     int pr[2], pe[2]; if (pipe(pr) || pipe(pe)){ perror("pipe"); exit(2); }
     pid_t pid = fork();
     if (pid < 0){ perror("fork"); exit(2); }
@@ -191,7 +194,7 @@ static vf::Outcome run_child_limited(const std::function<void(int)> &body, doubl
         if (open_r){ fds[n].fd = pr[0]; fds[n].events = POLLIN; ir = n++; }
         if (open_e){ fds[n].fd = pe[0]; fds[n].events = POLLIN; ie = n++; }
         double left = deadline - now(); if (left <= 0){ timed_out = true; break; }
-        int rc = poll(fds, n, (int) std::min(left * 1000.0 + 1, 100.0));
+        int rc = poll(fds, n, (int) std::min(left * 1000.0 + 1, 25.0));
         if (rc < 0){ if (errno == EINTR) continue; break; }
         if (rc == 0){
             int sfd = ::open(statm, O_RDONLY); if (sfd >= 0){ char sb[128]; ssize_t r = ::read(sfd, sb, sizeof(sb) - 1); ::close(sfd);
@@ -465,14 +468,15 @@ static Verdict judge(const Ref &R, const KP &kp, bool main_ex, const std::string
     V.phase = phase_of(R, kp, L);
     std::string dm = disk_class(R, main_ex, main_c, L), dold = disk_class(R, old_ex, old_c, L);
     V.disk = dm + "+" + dold;
-    std::string where = V.phase + ":disk=" + V.disk;
+    std::string where_disk = V.phase + ":main=" + dm + ",old=" + dold;   // writer-side invariant: both files matter
+    std::string where = V.phase + ":main=" + dm;                             // reader side: what the restart found in <name>
     std::ostringstream ctx; ctx << s.name() << ": death before event " << kp.k << "/" << R.ev.size();
     if (kp.k <= (long) R.ev.size()) ctx << " (" << fs::kname[R.ev[kp.k-1].kind] << " " << fs::fname[R.ev[kp.k-1].file] << ", " << R.ev[kp.k-1].n << " bytes) after " << kp.b << " bytes of it";
     ctx << "; last completed checkpoint = " << L << " holding " << (L >= 0 ? R.before[L].size() : 0) << " samples; on disk: main " << dm << " (" << main_c.size() << " B), old " << dold << " (" << old_c.size() << " B). ";
     // ---- (1) writer side: once a checkpoint has completed, one of the two files always holds a complete checkpoint that is at least as new
     V.evals++;
     bool intact = (dm == "ckpt-new" || dm == "ckpt-last" || dold == "ckpt-new" || dold == "ckpt-last");
-    if (L >= 0 && !intact) V.viol.push_back({"C17:disk:no-intact-checkpoint:" + where, ctx.str() + "Neither file holds a complete checkpoint: the acknowledged samples exist nowhere on disk."});
+    if (L >= 0 && !intact) V.viol.push_back({"C17:disk:no-intact-checkpoint:" + where_disk, ctx.str() + "Neither file holds a complete checkpoint: the acknowledged samples exist nowhere on disk."});
     // ---- (2) the restart
     std::string res, start = "unknown"; std::set<Key> recomputed; size_t ncalls = 0; for(auto &c : rc.calls) ncalls += c.size();
     int start_ep = -1;
@@ -483,10 +487,10 @@ static Verdict judge(const Ref &R, const KP &kp, bool main_ex, const std::string
     else if (rc.o.kind == vf::Outcome::SANITIZER) res = "sanitizer:" + san_kind(rc.o);
     else if (rc.o.kind == vf::Outcome::SIGNAL) res = "signal:" + std::to_string(rc.o.code);
     else if (rc.o.kind == vf::Outcome::EXIT) res = "exit:" + std::to_string(rc.o.code);
-    else if (!rc.xt.empty()) res = "throws:" + rc.xt + ":" + g_slug(rc.xw);
+    else if (!rc.xt.empty()) res = "throws:" + rc.xt + (rc.xt == "runtime_error" ? ":" + g_slug(rc.xw) : ""); // messages of length_error etc. belong to libstdc++
     else if (!rc.has_r) res = "no-report";
     if (!res.empty()){
-        V.viol.push_back({"C17:restart:" + res + ":" + where, ctx.str() + "The restart did not return normally: " + res + (rc.o.kind == vf::Outcome::TIMEOUT ? (rc.runaway ? " (killed when its resident memory passed " + std::to_string(g_rss_limit_mb) + " MB; a normal restart uses < 100 MB)" : " (no return within " + std::to_string((int) g_child_timeout) + " s; a normal restart takes ~20 ms)") : "") + (rc.xw.empty() ? "" : " what=\"" + rc.xw + "\"") + (rc.o.err.empty() ? "" : " stderr: " + rc.o.err.substr(0, 700))});
+        V.viol.push_back({"C17:restart:" + res + ":" + where, ctx.str() + "The restart did not return normally: " + res + (rc.o.kind == vf::Outcome::TIMEOUT ? (rc.runaway ? " (killed when its resident memory had grown by 120 MB to " + std::to_string(g_rss_limit_mb) + " MB while reading the checkpoint; a normal restart allocates a few hundred KB)" : " (no return within " + std::to_string((int) g_child_timeout) + " s; a normal restart takes ~20 ms)") : "") + (rc.xw.empty() ? "" : " what=\"" + rc.xw + "\"") + (rc.o.err.empty() ? "" : " stderr: " + rc.o.err.substr(0, 700))});
     }else{
         std::ostringstream d; d << ctx.str() << "Restart: start state = " << start << (start_ep >= 0 ? " (checkpoint " + std::to_string(start_ep) + ")" : "") << ", " << rc.calls.size() << " model calls / " << ncalls << " samples, "
                                  << recomputed.size() << " of them already acknowledged, final loaded points " << rc.nl << ", bad values " << rc.valbad << ", max nodal error " << rc.maxerr << ". ";
@@ -583,6 +587,8 @@ int main(int argc, char **argv){
     if (!getenv("CRASH_CKPT_REEXEC")){
         std::string o = std::string(__asan_default_options()) + ":max_allocation_size_mb=256" + (A.has("--replay") ? "" : ":symbolize=0");
         setenv("ASAN_OPTIONS", o.c_str(), 1); setenv("CRASH_CKPT_REEXEC", "1", 1);
+        // what a restart does with a torn file depends on uninitialised stack words (F19); a fixed address-space layout keeps that reproducible from run to run
+        personality(ADDR_NO_RANDOMIZE);
         execv("/proc/self/exe", argv);
     }
     std::string tier = A.get("--tier", "quick");
@@ -627,10 +633,11 @@ int main(int argc, char **argv){
     double t0 = vf::now();
     vf::parallel_units(W.size(), workers, [&](size_t ui){
         const WU &w = W[ui]; const Ref &R = refs[w.r]; set_worker_dir();
-        std::ostringstream part; std::map<std::string, long> oc; std::set<std::string> dg, sigs; long evals = 0, execs = 0, nviol = 0, harness_err = 0;
+        std::ostringstream part; std::map<std::string, long> oc; std::map<std::string, double> tm; std::set<std::string> dg, sigs; long evals = 0, execs = 0, nviol = 0, harness_err = 0;
         for(size_t i=w.a; i<w.b; i++){
-            const KP &kp = kps[w.r][i];
-            KPResult r = run_kill_point(R, kp);
+            const KP &kp = kps[w.r][i]; double tk = vf::now();
+            KPResult r = run_kill_point(R, kp); tk = vf::now() - tk;
+            if (r.ok){ std::string cls = r.V.result.substr(0, r.V.result.find(":start")); tm[cls] += tk; }
             if (!r.ok){ harness_err++; vf::emit(vf::J().s("t","error").s("what", R.s.name() + " kill point " + std::to_string(kp.k) + "/" + std::to_string(kp.b) + ": " + r.err)); continue; }
             execs++; evals += r.V.evals; oc[r.V.outcome_key]++; dg.insert(r.V.digest);
             for(auto &vv : r.V.viol){ nviol++; oc["VIOL " + vv.first]++; if (sigs.insert(vv.first).second) vf::violation(vv.first, R.s.name(), case_json(R, kp), vv.second); }
@@ -639,11 +646,12 @@ int main(int argc, char **argv){
         part << "U " << w.r << " " << execs << " " << evals << " " << nviol << "\n";
         for(auto &d : dg) part << "D " << d << "\n";
         for(auto &o : oc) part << "O " << o.second << " " << o.first << "\n";
+        for(auto &o : tm) part << "T " << o.second << " " << o.first << "\n";
         std::string pf = g_scratch + "/part." + std::to_string(ui); int fd = ::open(pf.c_str(), O_WRONLY | O_CREAT | O_TRUNC, 0644); if (fd >= 0){ vf::wr(fd, part.str()); ::close(fd); }
     });
     // aggregate per scenario
     std::vector<long> execs(refs.size(), 0), evals(refs.size(), 0), nviol(refs.size(), 0), chunks_done(refs.size(), 0), chunks_total(refs.size(), 0), kp_done(refs.size(), 0);
-    std::vector<std::set<std::string>> dgs(refs.size()); std::map<std::string, long> outcomes;
+    std::vector<std::set<std::string>> dgs(refs.size()); std::map<std::string, long> outcomes; std::map<std::string, double> times;
     for(size_t ui=0; ui<W.size(); ui++){
         chunks_total[W[ui].r]++;
         std::string c; if (!raw_slurp(g_scratch + "/part." + std::to_string(ui), c)) continue;
@@ -653,6 +661,7 @@ int main(int argc, char **argv){
             if (line[0] == 'U'){ long r, a, b, d; sscanf(line.c_str() + 2, "%ld %ld %ld %ld", &r, &a, &b, &d); execs[W[ui].r] += a; evals[W[ui].r] += b; nviol[W[ui].r] += d; }
             else if (line[0] == 'D') dgs[W[ui].r].insert(line.substr(2));
             else if (line[0] == 'O'){ char *q; long n = strtol(line.c_str() + 2, &q, 10); outcomes[std::string(q + 1)] += n; }
+            else if (line[0] == 'T'){ char *q; double n = strtod(line.c_str() + 2, &q); times[std::string(q + 1)] += n; }
         }
     }
     size_t units_done = 0;
@@ -669,6 +678,7 @@ int main(int argc, char **argv){
     for(auto &o : outcomes) vf::emit(vf::J().s("t","outcome").s("key", o.first).i("n", o.second));
     std::string bound = "tier=" + tier + ": " + std::to_string(refs.size()) + " scenarios (family x budget {6,12} x batch {1,2}" + (tier == "thorough" ? " + parallel mode with 1 worker" : "") + "); every file-system event of the recorded history is a kill point; torn writes at "
                        + (every_byte ? "every byte offset" : "offsets {1, n-1, every field boundary -1/0/+1, every 24th byte} (all offsets for writes <= 64 bytes)") + "; death after completion included";
+    { std::string tt; for(auto &o : times){ char b[64]; snprintf(b, sizeof(b), "%.1f", o.second); tt += o.first + "=" + b + "s "; } vf::emit(vf::J().s("t","note").s("text", "worker time by restart result class: " + tt)); }
     vf::emit(vf::J().s("t","note").s("text", "wall of the enumeration: " + std::to_string(vf::now() - t0) + " s"));
     vf::emit(vf::J().s("t","summary").i("units_total", (long long) S.size()).i("units_done", (long long) units_done).s("bound", bound).b("exhaustive", units_done == S.size() && !vf::past_deadline()));
     cleanup();
